@@ -5,6 +5,7 @@ import collections
 
 import core
 import h1gen
+import propbase
 import simnet
 
 ID = "C17"
@@ -39,6 +40,7 @@ def run_impl(kind, segs, maxes, total, runtime="sync"):
     else:
         method, url, headers = "CONNECT", httpcore.URL(scheme=b"http", host=b"example.com", port=80, target=b"target.example:443"), []
     try:
+      with propbase.time_limit(5.0):
         with httpcore.ConnectionPool(network_backend=simnet.SimBackend(net)) as pool:
             with pool.stream(method, url, headers=headers) as resp:
                 obs["status"] = resp.status
@@ -55,6 +57,8 @@ def run_impl(kind, segs, maxes, total, runtime="sync"):
             obs["conns_after_close"] = len(pool.connections)
             obs["open_after_close"] = net.open_sockets()
             obs["outcome"] = "complete"
+    except propbase.HangDetected:
+        obs["outcome"] = "hang"
     except BaseException as e:  # noqa
         obs["outcome"] = "starved" if isinstance(e, simnet.Starved) else "error:" + simnet.exc_name(e)
         obs["exc"] = repr(e)[:200]
